@@ -2,8 +2,10 @@
 C02 — graph construction depends only on the edge set; the root is unique or owl:Thing.
 Model: `findRoot`, `dedup`, `nodesOf`, `buildIndexed` (Hpv/GraphModel.lean).  This file imports Mathlib modules
 (finite + acyclic ⇒ well-founded) for `root_top` and `factory_total`; everything else is core Lean.
-Hypothesis `owl ∉ endpoints E`: the synthetic root must be a fresh node.  At the excluded point the real code fails
-(self-loop owl:Thing → owl:Thing) — recorded as an open known finding, see DESIGN.md.
+Hypothesis `OwlOk owl E`: the synthetic root must be a fresh node WHEN IT IS ADDED, i.e. when two or more terms are
+parentless; an edge list that mentions `owl:Thing` and has a single parentless term (e.g. `owl:Thing` itself as the top
+of the hierarchy) is inside the domain.  At the excluded point the real code fails (self-loop owl:Thing → owl:Thing) —
+recorded as an open known finding, see DESIGN.md.
 -/
 import Hpv.GraphModelProofs
 import Hpv.Props.C01
@@ -19,6 +21,11 @@ variable {o : Graph.Ord κ} {owl : κ} {E : List (Edge κ)} {root : κ} {E' : Li
 theorem mem_endpoints (l : List (Edge κ)) (x : κ) : x ∈ endpoints l ↔ ∃ e ∈ l, x = e.1 ∨ x = e.2 := by
   unfold endpoints
   simp only [List.mem_flatMap, List.mem_cons, List.not_mem_nil, or_false]
+
+/-- the domain condition on `owl:Thing`: it is not mentioned in the edges, unless no synthetic root is needed -/
+def OwlOk (owl : κ) (E : List (Edge κ)) : Prop := 2 ≤ (candidates (dedup E)).length → owl ∉ endpoints E
+
+theorem owlOk_of_fresh (h : owl ∉ endpoints E) : OwlOk owl E := fun _ => h
 
 /-- **Nodes.** The graph contains exactly the terms mentioned in the edges, each once, in ascending order, plus the
 synthetic root exactly when at least two terms have no parent. -/
@@ -50,7 +57,7 @@ theorem nodes_spec (h : BuiltIx o owl E root E' g) :
 
 /-- **Root.** The root is the single parentless term, or — when several terms have no parent — the added
 `owl:Thing`, whose children are exactly the parentless terms; the root is a node and has no parents. -/
-theorem root_spec (h : BuiltIx o owl E root E' g) (howl : owl ∉ endpoints E) :
+theorem root_spec (h : BuiltIx o owl E root E' g) (howl : OwlOk owl E) :
     ((candidates (dedup E) = [root]) ∨
      (2 ≤ (candidates (dedup E)).length ∧ root = owl ∧
        ∃ res, g.query o .children (some owl) false = .ok res ∧ res.Nodup ∧ ∀ x, x ∈ res ↔ Parentless (dedup E) x)) ∧
@@ -58,19 +65,20 @@ theorem root_spec (h : BuiltIx o owl E root E' g) (howl : owl ∉ endpoints E) :
     g.query o .parents (some root) false = .ok [] := by
   obtain ⟨_, _, _, _, _, _, hrootidx, _, _, _⟩ := h.facts
   have hrootmem : root ∈ g.nodes := List.mem_of_getElem? hrootidx
-  have hnoE : ∀ e ∈ dedup E, e.1 ≠ owl ∧ e.2 ≠ owl := by
-    intro e he
+  have hnoE : 2 ≤ (candidates (dedup E)).length → ∀ e ∈ dedup E, e.1 ≠ owl ∧ e.2 ≠ owl := by
+    intro h2 e he
     have he' := (mem_dedup E e).mp he
     constructor
-    · intro hh; exact howl ((mem_endpoints E owl).mpr ⟨e, he', Or.inl hh.symm⟩)
-    · intro hh; exact howl ((mem_endpoints E owl).mpr ⟨e, he', Or.inr hh.symm⟩)
+    · intro hh; exact howl h2 ((mem_endpoints E owl).mpr ⟨e, he', Or.inl hh.symm⟩)
+    · intro hh; exact howl h2 ((mem_endpoints E owl).mpr ⟨e, he', Or.inr hh.symm⟩)
   -- the root is never the subject of an edge of the rooted list
   have hnosub : ∀ e ∈ E', e.1 ≠ root := by
     intro e he
-    rcases findRoot_spec owl (dedup E) root E' h.hroot with ⟨h1, rfl⟩ | ⟨_, rfl, rfl⟩
+    rcases findRoot_spec owl (dedup E) root E' h.hroot with ⟨h1, rfl⟩ | ⟨h2', rfl, rfl⟩
     · have : root ∈ candidates (dedup E) := by rw [h1]; simp
       exact ((mem_candidates _ _).mp this).2 e he
-    · rcases List.mem_append.mp he with h1 | h1
+    · have hnoE := hnoE h2'
+      rcases List.mem_append.mp he with h1 | h1
       · exact (hnoE e h1).1
       · obtain ⟨c, hc, rfl⟩ := List.mem_map.mp h1
         obtain ⟨⟨e', he', h3⟩, _⟩ := (mem_candidates _ c).mp hc
@@ -80,6 +88,7 @@ theorem root_spec (h : BuiltIx o owl E root E' g) (howl : owl ∉ endpoints E) :
   · rcases findRoot_spec owl (dedup E) root E' h.hroot with ⟨h1, _⟩ | ⟨h2, hr, hE'⟩
     · exact Or.inl h1
     · refine Or.inr ⟨h2, hr, ?_⟩
+      have hnoE := hnoE h2
       subst hr
       obtain ⟨hq, hnd, hmem⟩ := children_exact h root hrootmem
       refine ⟨_, hq, hnd, ?_⟩
@@ -102,7 +111,7 @@ theorem root_spec (h : BuiltIx o owl E root E' g) (howl : owl ∉ endpoints E) :
     rw [this]; rfl
 
 /-- Root finding keeps the hierarchy acyclic (and hence free of self-loops) when `owl:Thing` is fresh. -/
-theorem acyclic_rooted (hroot : findRoot owl (dedup E) = .ok (root, E')) (howl : owl ∉ endpoints E)
+theorem acyclic_rooted_fresh (hroot : findRoot owl (dedup E) = .ok (root, E')) (howl : owl ∉ endpoints E)
     (hacyc : ∀ x, ¬ TransGen (fun a b => (a, b) ∈ E) x x) :
     (∀ x, ¬ TransGen (IsA E') x x) ∧ ∀ e ∈ E', e.1 ≠ e.2 := by
   have hnoE : ∀ a b, (a, b) ∈ E → a ≠ owl ∧ b ≠ owl := by
@@ -147,6 +156,25 @@ theorem acyclic_rooted (hroot : findRoot owl (dedup E) = .ok (root, E')) (howl :
   show (e.1, e.1) ∈ E'
   have : (e.1, e.1) = e := Prod.ext rfl heq
   rw [this]; exact he
+
+/-- Root finding keeps the hierarchy acyclic on the whole domain: with a single parentless term nothing is added (whether
+or not the edges mention `owl:Thing`), with several the fresh `owl:Thing` is put on top. -/
+theorem acyclic_rooted (hroot : findRoot owl (dedup E) = .ok (root, E')) (howl : OwlOk owl E)
+    (hacyc : ∀ x, ¬ TransGen (fun a b => (a, b) ∈ E) x x) :
+    (∀ x, ¬ TransGen (IsA E') x x) ∧ ∀ e ∈ E', e.1 ≠ e.2 := by
+  rcases findRoot_spec owl (dedup E) root E' hroot with ⟨_, hE'⟩ | ⟨h2, _, _⟩
+  · subst hE'
+    have hac : ∀ x, ¬ TransGen (IsA (dedup E)) x x := by
+      intro x hx
+      exact hacyc x (TransGen.mono (fun a b hh => (mem_dedup E (a, b)).mp hh) x x hx)
+    refine ⟨hac, ?_⟩
+    intro e he heq
+    apply hac e.1
+    apply TransGen.single
+    show (e.1, e.1) ∈ dedup E
+    have : (e.1, e.1) = e := Prod.ext rfl heq
+    rw [this]; exact he
+  · exact acyclic_rooted_fresh hroot (howl h2) hacyc
 
 /-- **Every other node is a descendant of the root** (finite + acyclic ⇒ every upward walk ends, and it can only
 end in the root). -/
@@ -195,7 +223,7 @@ theorem root_top (h : BuiltIx o owl E root E' g) (hacyc : ∀ x, ¬ TransGen (Is
 /-- **The factory is total on the property's domain**: every acyclic edge list with at least one edge, not
 mentioning `owl:Thing`, is built successfully (so the `BuiltIx` hypothesis of all graph theorems is never vacuous). -/
 theorem factory_total (o : Graph.Ord κ) (hs : o.Strict) (owl : κ) (E : List (Edge κ)) (hne : E ≠ [])
-    (howl : owl ∉ endpoints E) (hacyc : ∀ x, ¬ TransGen (fun a b => (a, b) ∈ E) x x) :
+    (howl : OwlOk owl E) (hacyc : ∀ x, ¬ TransGen (fun a b => (a, b) ∈ E) x x) :
     ∃ root E' g, BuiltIx o owl E root E' g := by
   -- some term is parentless: walk up from the subject of the first edge
   obtain ⟨e0, he0⟩ := List.exists_mem_of_ne_nil E hne
@@ -343,7 +371,7 @@ theorem perm_of_same_members {l₁ l₂ : List κ} (n₁ : l₁.Nodup) (n₂ : l
 mentioning `owl:Thing`) every shipped factory succeeds, and two lists with the same edge SET (any permutation, any
 multiset of repeats) give - for each factory - the same node array, the same root and, for every query, every node
 and both values of `include_source`, the same answer up to order. -/
-theorem invariance_all_factories (hs : o.Strict) {E₁ E₂ : List (Edge κ)} (hne : E₁ ≠ []) (howl : owl ∉ endpoints E₁)
+theorem invariance_all_factories (hs : o.Strict) {E₁ E₂ : List (Edge κ)} (hne : E₁ ≠ []) (howl : OwlOk owl E₁)
     (hacyc : ∀ x, ¬ TransGen (fun a b => (a, b) ∈ E₁) x x) (hE : ∀ e, e ∈ E₁ ↔ e ∈ E₂) (f : Factory) :
     ∃ G₁ G₂, GM.build o owl f E₁ = .ok G₁ ∧ GM.build o owl f E₂ = .ok G₂ ∧ G₁.nodes = G₂.nodes ∧ G₁.root = G₂.root ∧
       ∀ (q : Q) (v : κ) (incl : Bool), v ∈ G₁.nodes →
@@ -352,10 +380,20 @@ theorem invariance_all_factories (hs : o.Strict) {E₁ E₂ : List (Edge κ)} (h
   have hne₂ : E₂ ≠ [] := by
     obtain ⟨e, he⟩ := List.exists_mem_of_ne_nil E₁ hne
     exact List.ne_nil_of_mem ((hE e).mp he)
-  have howl₂ : owl ∉ endpoints E₂ := by
-    intro h
+  have howl₂ : OwlOk owl E₂ := by
+    intro h2 h
+    have hD : ∀ e, e ∈ dedup E₁ ↔ e ∈ dedup E₂ := fun e => by rw [mem_dedup, mem_dedup, hE]
+    have hP : ∀ x, Parentless (dedup E₁) x ↔ Parentless (dedup E₂) x := by
+      intro x
+      unfold Parentless
+      constructor
+      · rintro ⟨⟨e, he, hx⟩, h2⟩; exact ⟨⟨e, (hD e).mp he, hx⟩, fun e' he' => h2 e' ((hD e').mpr he')⟩
+      · rintro ⟨⟨e, he, hx⟩, h2⟩; exact ⟨⟨e, (hD e).mpr he, hx⟩, fun e' he' => h2 e' ((hD e').mp he')⟩
+    have hC : (candidates (dedup E₁)).Perm (candidates (dedup E₂)) :=
+      (List.perm_ext_iff_of_nodup (nodup_candidates _) (nodup_candidates _)).mpr
+        (fun x => by rw [mem_candidates, mem_candidates, hP])
     obtain ⟨e, he, hx⟩ := (mem_endpoints E₂ owl).mp h
-    exact howl ((mem_endpoints E₁ owl).mpr ⟨e, (hE e).mpr he, hx⟩)
+    exact howl (by rw [hC.length_eq]; exact h2) ((mem_endpoints E₁ owl).mpr ⟨e, (hE e).mpr he, hx⟩)
   have hacyc₂ : ∀ x, ¬ TransGen (fun a b => (a, b) ∈ E₂) x x := by
     intro x hx
     exact hacyc x ((transGen_congr (fun a b => hE (a, b)) x x).mpr hx)
@@ -426,7 +464,7 @@ theorem invariance_all_factories (hs : o.Strict) {E₁ E₂ : List (Edge κ)} (h
 set "endpoints, plus `owl:Thing` exactly when several terms are parentless", each node once; the root is the single
 parentless term or `owl:Thing`; the root has no parents and every other node has the root among its ancestors and is
 among the root's descendants. -/
-theorem structure_all_factories (hs : o.Strict) (hne : E ≠ []) (howl : owl ∉ endpoints E)
+theorem structure_all_factories (hs : o.Strict) (hne : E ≠ []) (howl : OwlOk owl E)
     (hacyc : ∀ x, ¬ TransGen (fun a b => (a, b) ∈ E) x x) (f : Factory) :
     ∃ G root, GM.build o owl f E = .ok G ∧ G.root = .ok root ∧ root ∈ G.nodes ∧ G.nodes.Nodup ∧
       (∀ x, x ∈ G.nodes ↔ x ∈ endpoints E ∨ (x = owl ∧ 2 ≤ (candidates (dedup E)).length)) ∧
@@ -520,5 +558,13 @@ example : (0 : Nat) ∉ endpoints forest ∧ (∀ x, ¬ TransGen (fun a b => (a,
     | single hh => simp [forest] at hh; omega
     | tail _ hh ih => simp [forest] at hh; omega
   exact absurd (mono x x hx) (Nat.lt_irrefl x)
+
+-- the domain includes edge lists that MENTION the synthetic root's key when a single term is parentless (key 0 on top of 1 <- 2)
+example : OwlOk (0 : Nat) [(1, 0), (2, 1)] ∧ (0 : Nat) ∈ endpoints [(1, 0), (2, 1)] ∧ candidates (dedup [((1 : Nat), (0 : Nat)), (2, 1)]) = [0] := by
+  refine ⟨?_, by decide, by rfl⟩
+  intro h
+  have : candidates (dedup [((1 : Nat), (0 : Nat)), (2, 1)]) = [0] := by rfl
+  rw [this] at h
+  simp at h
 
 end Hpv.Props.C02
